@@ -96,7 +96,22 @@ def family():
 
     def f_garbage(recs, enc):
         return join(recs) + b"zzzz"
+
+    def flip_sig_of(i):
+        def f(recs, enc):
+            h = recs[i][0]
+            recs[i][0] = h[:-3] + (b"0" if h[-3:-2] != b"0" else b"1") + h[-2:]
+            return join(recs)
+        return f
+
+    def f_final_from_other(recs, enc):
+        other = enc("f" * 64)
+        recs[-1] = other[-1]
+        return join(recs)
     for k, d, f in (("chunk:data-altered", "a data byte of the second chunk altered", f_flip_data),
+                    ("chunk:first-signature-altered", "a signature digit of the first chunk altered", flip_sig_of(0)),
+                    ("chunk:final-signature-altered", "a signature digit of the final (empty) chunk altered", flip_sig_of(-1)),
+                    ("chunk:final-spliced", "final chunk taken from an upload with another seed", f_final_from_other),
                     ("chunk:signature-altered", "a signature digit of the second chunk altered", f_flip_sig),
                     ("chunk:resized", "second chunk resized", f_size),
                     ("chunk:swapped", "first two chunks swapped", f_swap),
